@@ -219,6 +219,10 @@ func plans() []plan {
 	for i := 0; i < mon.Pick(400, 30000); i++ {
 		ps = append(ps, plan{"racing"})
 	}
+	// appended last so that earlier case indices do not move
+	for i := 0; i < mon.Pick(60, 2000); i++ {
+		ps = append(ps, plan{"shared-slice"})
+	}
 	return ps
 }
 
@@ -226,7 +230,7 @@ func TestCheck(t *testing.T) {
 	rec = mon.Open("C12")
 	defer rec.Close()
 	rec.Note("rule", "a case is one topology run against the real managers in a synctest bubble: 0-4 runners drawn from {nil, error, context.Canceled, wrapped Canceled, block-until-cancel (returning nil / an error / ctx.Err), gate-released (nil / error)} finishing in a seeded order, parent context cancelled or not; for the closer manager additionally 0-4 closers of the four accepted types with seeded durations and errors, grace period unset / generous / exceeded, Close before / during / after Run (repeated, concurrent), AddCloser during the run and AddCloser parked at its decision point while Run enters the closing phase, unsupported closer types. The sequence-stamped event log is judged offline. Non-trivial = at least one runner or closer; distinct = distinct topology description.")
-	rec.Note("require", []string{"runner.first_return_cancels_others", "runner.parent_cancel", "closer.fatal_fired", "closer.fatal_not_fired", "closer.close_during_run", "closer.close_before_run", "closer.concurrent_close", "closer.addcloser_during_run", "placed.addcloser_parked", "closer.unsupported_type_rejected", "join.errors_checked", "closer.addcloser_from_a_running_closer_refused", "parent_end.cancel", "parent_end.deadline", "parent_end.cause", "racing.addcloser_accepted", "racing.addcloser_rejected"})
+	rec.Note("require", []string{"runner.first_return_cancels_others", "runner.parent_cancel", "closer.fatal_fired", "closer.fatal_not_fired", "closer.close_during_run", "closer.close_before_run", "closer.concurrent_close", "closer.addcloser_during_run", "placed.addcloser_parked", "closer.unsupported_type_rejected", "join.errors_checked", "closer.addcloser_from_a_running_closer_refused", "parent_end.cancel", "parent_end.deadline", "parent_end.cause", "racing.addcloser_accepted", "racing.addcloser_rejected", "shared_slice.managers_start_their_own_runners"})
 	ps := plans()
 	rec.Planned(len(ps))
 	for idx, pl := range ps {
@@ -241,10 +245,114 @@ func TestCheck(t *testing.T) {
 			runCloser(t, idx, rng, false)
 		case "racing":
 			runRacing(t, idx, rng)
+		case "shared-slice":
+			runSharedSlice(t, idx, rng)
 		default:
 			runCloser(t, idx, rng, true)
 		}
 	}
+}
+
+// runSharedSlice: the initial runners are handed over as a caller-owned slice with spare capacity, from
+// which TWO managers are built; each then gets one more runner through Add. Every manager must start
+// exactly the runners given to IT, and the caller's slice (spare capacity included) stays the caller's.
+func runSharedSlice(t *testing.T, idx int, rng *mon.RNG) {
+	n := rng.Range(0, 2)
+	spare := rng.Range(1, 3)
+	closerMgr := rng.Bool()
+	edit := rng.Chance(1, 3)
+	w := &world{idx: idx, mode: "shared-slice", desc: fmt.Sprintf("initial=%d spare=%d closerManager=%v callerEditsSlice=%v", n, spare, closerMgr, edit)}
+	rec.Begin(idx, w.mode+" "+w.desc)
+	res := mon.Bubble(t, func() {
+		mk := func(id int) concurrency.Runner {
+			return func(ctx context.Context) error {
+				w.ev("rstart", id, nil)
+				<-ctx.Done()
+				w.ev("rret", id, nil)
+				return nil
+			}
+		}
+		rs := make([]concurrency.Runner, n, n+spare)
+		for i := range rs {
+			rs[i] = mk(i)
+		}
+		type mgr interface {
+			Add(...concurrency.Runner) error
+			Run(context.Context) error
+		}
+		build := func() mgr {
+			if closerMgr {
+				log := logger.NewLogger("c12")
+				log.SetOutputLevel(logger.FatalLevel)
+				return concurrency.NewRunnerCloserManager(log, nil, rs...)
+			}
+			return concurrency.NewRunnerManager(rs...)
+		}
+		m1 := build()
+		m2 := build()
+		if err := m1.Add(mk(101)); err != nil {
+			w.violation("shared-slice/add-rejected", err.Error())
+			return
+		}
+		if err := m2.Add(mk(102)); err != nil {
+			w.violation("shared-slice/add-rejected", err.Error())
+			return
+		}
+		for _, r := range rs[:cap(rs)][n:] {
+			if r != nil {
+				// not judged by itself (the statement does not speak about the caller's memory); what matters
+				// is whether each manager still runs its own runners, below
+				rec.Count("shared_slice.observed.add_wrote_into_callers_spare_capacity", 1)
+				break
+			}
+		}
+		if edit {
+			// the caller re-uses its slice for something else
+			for i := range rs {
+				rs[i] = mk(900 + i)
+			}
+		}
+		ctx, cancel := context.WithCancel(context.Background())
+		done := make(chan error, 2)
+		go func() { done <- m1.Run(ctx) }()
+		go func() { done <- m2.Run(ctx) }()
+		synctest.Wait()
+		starts := map[int]int{}
+		for _, e := range w.events() {
+			if e.kind == "rstart" {
+				starts[e.id]++
+			}
+		}
+		switch {
+		case starts[101] != 1 || starts[102] != 1:
+			w.violation("shared-slice/added-runner-not-started-by-its-manager", fmt.Sprintf("two managers built from one caller slice (cap > len), one runner added to each: runner added to manager 1 started %d times, runner added to manager 2 started %d times (each must start exactly once)", starts[101], starts[102]))
+		default:
+			for i := 0; i < n; i++ {
+				if starts[i] != 2 {
+					w.violation("shared-slice/initial-runner-start-count", fmt.Sprintf("initial runner %d was started %d times by the two managers (expected once by each); the caller edited its slice after construction: %v", i, starts[i], edit))
+					break
+				}
+				if starts[900+i] != 0 {
+					w.violation("shared-slice/runner-from-edited-caller-slice-started", fmt.Sprintf("a runner the caller put into its own slice after constructing the managers was started"))
+					break
+				}
+			}
+		}
+		if !w.viol.Load() {
+			rec.Count("shared_slice.managers_start_their_own_runners", 1)
+		}
+		cancel()
+		synctest.Wait()
+		for i := 0; i < 2; i++ {
+			select {
+			case <-done:
+			default:
+				w.violation("shared-slice/run-did-not-return", "Run did not return after the context was cancelled")
+				return
+			}
+		}
+	})
+	finish(idx, w, res, true)
 }
 
 func finish(idx int, w *world, res mon.BubbleResult, nontrivial bool) {
